@@ -94,8 +94,8 @@ func (g *Gate) quiescent() (ok bool, sig string, npend int) {
 // events (stutter pruning below), ask the chooser, execute.
 func (g *Gate) controlledLoop() {
 	settle := g.w.opt.Settle
-	if settle < 250*time.Microsecond {
-		settle = 250 * time.Microsecond
+	if settle < 150*time.Microsecond {
+		settle = 150 * time.Microsecond
 	}
 	for {
 		// wait until quiescent and unchanged for the settle period
@@ -173,18 +173,44 @@ func (g *Gate) controlledStep() bool {
 	if len(stale) > 0 && len(fresh) > 0 {
 		rec.run.Count("exh:stutter-pruned")
 	}
-	if len(enabled) == 0 {
-		enabled = stale
-		rec.run.Count("exh:forced-stutter")
-	}
 	sort.Strings(enabled)
+	sort.Strings(stale)
 	g.mu.Unlock()
-	if len(enabled) == 0 {
+	label, ok := "", true
+	switch {
+	case len(enabled) == 0 && len(stale) == 0:
 		return true
+	case len(enabled) == 0:
+		// every enabled request is a repeat against an unchanged store (clients blocking each other until a retry budget
+		// runs out): not a decision point — the one that ran longest ago goes next (round robin), the chooser is not asked
+		rec.run.Count("exh:forced-stutter")
+		owners := map[string]bool{}
+		for _, l := range stale {
+			owners[strings.SplitN(l, " ", 2)[0]] = true
+		}
+		if len(owners) > 1 {
+			// several clients block each other until one of their retry budgets runs out; which one gives up first depends on
+			// the random jitter of the back-off, not on the schedule: the enumeration cuts the schedule here
+			if !g.w.closed {
+				rec.run.Comment("livelock-cut: every enabled request repeats an already answered one against an unchanged store")
+				rec.run.Count("exh:livelock-cut")
+			}
+			g.w.cut = true
+			g.w.closed = true
+			go g.shutdown()
+			return false
+		}
+		label = stale[0]
+		for _, l := range stale {
+			if g.lastRun[l] < g.lastRun[label] {
+				label = l
+			}
+		}
+	default:
+		rec.mu.Unlock()
+		label, ok = g.w.opt.Control.Choose(enabled)
+		rec.mu.Lock()
 	}
-	rec.mu.Unlock()
-	label, ok := g.w.opt.Control.Choose(enabled)
-	rec.mu.Lock()
 	if ok && label == "" {
 		// the chooser wants to look again after a moment (an event it expects has not arrived yet)
 		rec.mu.Unlock()
@@ -214,6 +240,10 @@ func (g *Gate) controlledStep() bool {
 		g.seen = map[string]bool{}
 	}
 	g.seen[label+"\x00"+fp] = true
+	if g.lastRun == nil {
+		g.lastRun = map[string]int{}
+	}
+	g.lastRun[label] = g.steps + 1
 	p.picked = true
 	g.busy = true
 	g.steps++
